@@ -80,6 +80,17 @@ func c04History(e *core.Env, r *core.Rand, idx int64) {
 	}
 	viaCLI := idx%12 == 3
 	viaBin := idx%40 == 7 && e.KlogBin != ""
+	// 1 in 10 histories address the file through a bookmark (@work) or through the default bookmark (no file argument at all)
+	fileArg := file
+	if idx%10 == 1 && !viaBin {
+		_ = os.MkdirAll(e.Dir+"/cfg", 0755)
+		bm := fmt.Sprintf(`[{"name":"default","path":%q},{"name":"work","path":%q}]`, file, file)
+		if err := os.WriteFile(e.Dir+"/cfg/bookmarks.json", []byte(bm), 0644); err != nil {
+			panic(err)
+		}
+		fileArg = r.Pick("@work", "", "@default")
+		e.Count("histories_addressing_the_file_through_a_bookmark", 1)
+	}
 	var steps []histStep
 	w := func() map[string]any { return map[string]any{"initial_file": d.Text, "steps": steps, "file_now": readFile(file)} }
 	nSteps := r.Range(4, 30)
@@ -105,7 +116,7 @@ func c04History(e *core.Env, r *core.Rand, idx int64) {
 		if viaBin {
 			res = c04RunBinary(e, cmd, env, file)
 		} else {
-			res = runMutating(e, cmd, env, file, viaCLI)
+			res = runMutating(e, cmd, env, fileArg, viaCLI)
 		}
 		after := readFile(file)
 		st := histStep{Cmd: cmd.String(), Clock: env.Clock().Format("2006-01-02T15:04:05"), Config: strings.ReplaceAll(env.ConfigFile(), "\n", "; ")}
